@@ -23,14 +23,16 @@ LEVEL_TEXT = ('Tier A (full functional contract, all inputs, no bound): '
               'takeWhile, skipWhile, skip, limit, select, reverse, '
               'aggregate call the named lazy constructor on their arguments '
               'in the right order.')
-LEVEL_NOTE = ('Not under contract: groupBy/GroupAggregator, join, distinct, '
-              'selectMany, slice/splitWhere/sliceWhere, accumulate, '
-              'generate*, mergeWith, set algebra, dict persistent updates '
-              '(frames only), multi-operator pipelines and the algebraic '
-              'laws between operators. sorted() stability, filter/map/'
-              'itertools semantics are assumed (T-seq, T-lazy). Negative '
-              'insert positions are outside the contracts\' domain (the '
-              'iterator and list overloads disagree there).')
+LEVEL_NOTE = ('Not under contract (BOUNDED model comparison only): '
+              'groupBy/GroupAggregator, generateMany, zip, multi-operator '
+              'pipelines and the algebraic laws between operators. '
+              'sorted() stability, filter/map/itertools semantics are '
+              'assumed (T-seq, T-lazy). delete / replace / replaceMany / '
+              'insert are proved for EVERY position and count (negative '
+              'ones included; the iterator and list overloads of insert '
+              'disagree on negative positions and each is pinned as the '
+              'suite pins it); slice for chunk lengths 1..3; flatten for '
+              'scalar elements.')
 
 
 def units(ctx):
